@@ -277,8 +277,24 @@ class Nested(Sub):
 # bindings are per instance
 
 BOPS = [['setvar', 'xv', 11], ['setvar', 'TRUE', 'hijack'], ['setfn', 'XF'], ['setfn', 'SUM'], ['oncell'], ['onvar'],
-        ['onfn'], ['parse', 'xv+XF(1)+A1'], ['parse', 'nosuch+'], ['once']]
-PROBES = ['xv', 'XF(1)', 'A1', 'SUM(1,2)', 'TRUE', 'nosuchvar', 'A1:B2', 'IF(TRUE,1,2)']
+        ['onfn'], ['parse', 'xv+XF(1)+A1'], ['parse', 'nosuch+'], ['once'], ['parse', 'SUM(B2:A1)+SUM($C$3:A2)+C3']]
+PROBES = ['xv', 'XF(1)', 'A1', 'SUM(1,2)', 'TRUE', 'nosuchvar', 'A1:B2', 'IF(TRUE,1,2)', 'B2*2', 'C3-A2', 'SUM(B2:C3)']
+
+
+def own_cell_listener(cell, setter):
+    # parser B's own listener: the value identifies the cell that was asked for
+    setter(100 * cell.row.index + cell.col.index + 1 + (5000 if len(cell.label) != 2 else 0))
+
+
+def own_range_listener(s, e, setter):
+    setter([[s.row.index, s.col.index, len(s.label)], [e.row.index, e.col.index, len(e.label)]])
+
+
+def new_b(env):
+    b = env.new_parser()
+    b.on('callCellValue', own_cell_listener)
+    b.on('callRangeValue', own_range_listener)
+    return b
 
 
 class Bindings(Sub):
@@ -301,16 +317,17 @@ class Bindings(Sub):
         seq, order = case
         env.nt()
         calls = []
-        if order == 0:
-            A = env.new_parser()
-            B = env.new_parser()
-        else:
-            B = env.new_parser()
-            A = env.new_parser()
         fresh = getattr(env, '_c03fresh', None)
         if fresh is None:
-            lone = env.new_parser()
+            # computed first: the reference parser has never had a sibling that did anything
+            lone = new_b(env)
             fresh = env._c03fresh = [env.out(lone.parse(t)) for t in PROBES]
+        if order == 0:
+            A = env.new_parser()
+            B = new_b(env)
+        else:
+            B = new_b(env)
+            A = env.new_parser()
         for oi in seq:
             op = BOPS[oi]
             if op[0] == 'setvar':
